@@ -59,6 +59,11 @@ CLAIMED = {
    text="Call histories (start/stop/record_stat/record_epoch/define_*) on MemoryLogger, StandardLogger, OrbaxCheckpointer and LoggerLists of them under a simulated clock with forward and backward jumps, against a list reference: records, locations, counters, member agreement, checkpoint cadence vs floor(step/interval) crossings (Orbax) / every f-th epoch (standard), every listed path restorable to the state hashed at that record.",
    note="Real Orbax and file system (per-run scratch directory). Decreasing steps and re-definition of a frequency after records are outside the quantifier and not generated.",
    technique="deterministic simulation: seeded call histories, simulated clock seam with jumps, reference model, restore oracle"),
+
+ "C09": dict(level="fault_enumeration", engine="TwinRun", design="§4 C09",
+   text="Every plan is executed in three fresh interpreters: twins with the same plan but different PYTHONHASHSEED, global numpy/random state and (simulated) wall clock must produce bit-identical event logs (actions received by the environment, logged statistics without time fields, MemoryLogger series, stored buffer rows, returned counters, hashes of all returned modules and optimisers); a third run with another seed must differ.",
+   note="XLA thread configuration and platform are held fixed (same machine). One plan per routine and configuration; seeds are sampled.",
+   technique="deterministic simulation twin runs under perturbation of hash seed, global RNG state and clock"),
 }
 NA = {
  "C12": "pure value/gradient identities of single loss calls; no schedule, clock, fault or retained state for a simulator to control",
